@@ -25,6 +25,8 @@ pub use update::update;
 pub use update::leaf_updater_verif;
 #[cfg(nomt_verif)]
 pub use update::{branch_stage_verif, branch_updater_verif};
+#[cfg(nomt_verif)]
+pub use update::{extend_range_verif, leaf_stage_verif};
 
 /// Do a partial lookup of the key in the beatree.
 ///
